@@ -178,15 +178,20 @@ def A10_descending_contract(repo, clause):
                                   % (sub1, strict), slot="reindex-step"))
     sorts_itself = any(isinstance(c, ast.Call) and call_name(c) == "sorted" and c.args and isinstance(c.args[0], ast.Name)
                        and c.args[0].id == P for c in ast.walk(callee.node))
+    # contradictions with the callers' DESCENDING order do not depend on the shape of the re-index: judged first
+    obs.extend(_order_beliefs(repo, clause, callee, P))
     if not iterative and not sorts_itself:
-        raise AnalysisError("A10: _delete_and_reindex_atom_index_array no longer has the iterative re-index shape; "
-                            "the descending-order contract must be re-triaged")
+        obs.append(Ob("A10", clause, callee, callee.node, False, "_delete_and_reindex_atom_index_array no longer has the iterative re-index shape; the descending-order contract must be re-triaged",
+                      construct="def %s" % callee.name, slot="reindex-shape", undecided=True))
+        return obs
     # membership quantifier: a term is dropped iff ANY of its atoms is deleted
     anys = [c for c in calls_in(callee) if call_name(c) in ("any", "all") and any(
         isinstance(x, ast.Compare) and isinstance(x.ops[0], (ast.In, ast.Eq)) for x in ast.walk(c))]
     isin = [c for c in calls_in(callee) if call_name(c) in ("isin", "in1d")]
     if not anys and not isin:
-        raise AnalysisError("A10: membership test of term atoms against the deleted set not found")
+        obs.append(Ob("A10", clause, callee, callee.node, False, "membership test of term atoms against the deleted set not found", construct="def %s" % callee.name,
+                      slot="membership-shape", undecided=True))
+        return obs
     # order-sensitive library calls on the index parameter
     for c in calls_in(callee):
         if call_name(c) == "searchsorted" and c.args:
@@ -205,7 +210,6 @@ def A10_descending_contract(repo, clause):
                       "MUTATES" if pm else "does not mutate", P), construct="def %s" % callee.name, slot="index-argument-not-mutated", positive=True))
     obs.extend(_reindex_reached(repo, clause, callee, P, loops))
     obs.extend(_row_indices_original(repo, clause, callee))
-    obs.extend(_order_beliefs(repo, clause, callee, P))
     for lp_ in loops:
         for b_ in [x for x in ast.walk(lp_) if isinstance(x, ast.Break)]:
             if any(isinstance(a_, (ast.For, ast.While)) and a_ is not lp_ and lp_ in list(callee.ancestors(a_)) for a_ in callee.ancestors(b_)):
@@ -1915,8 +1919,13 @@ def _order_beliefs(repo, clause, callee, P):
     for x in [n for n in callee.own_nodes() if isinstance(n, ast.Compare) and len(n.ops) == 1 and isinstance(n.ops[0], (ast.Lt, ast.LtE, ast.Gt, ast.GtE))]:
         l, r = expand(callee, x.left), expand(callee, x.comparators[0])
         def end_of_P(e):
-            if isinstance(e, ast.Subscript) and isinstance(e.value, ast.Name) and e.value.id == P and const_value(e.slice) in (0, -1):
-                return const_value(e.slice)
+            if isinstance(e, ast.Subscript) and const_value(e.slice) in (0, -1):
+                v = e.value
+                # order-preserving wrappers: np.asarray(P), np.array(P, dtype=int), list(P), tuple(P)
+                while isinstance(v, ast.Call) and call_name(v) in ("asarray", "array", "list", "tuple", "asanyarray") and v.args:
+                    v = v.args[0]
+                if isinstance(v, ast.Name) and v.id == P:
+                    return const_value(e.slice)
             return None
         gt = isinstance(x.ops[0], (ast.Gt, ast.GtE))
         greater, smaller = (l, r) if gt else (r, l)
@@ -1935,7 +1944,7 @@ def _order_beliefs(repo, clause, callee, P):
         obs.append(Ob("A10", clause, callee, x, bad is None,
                       "`%s` uses %s" % (ast.unparse(x), bad + ", but every caller passes the list in DESCENDING order: terms touching a smaller deleted index are skipped and keep stale atom numbers"
                                         if bad else "the ends of the descending list consistently with the contract"),
-                      slot="order-belief", positive=bad is not None))
+                      slot="order-belief", positive="robust" if bad is not None else False))
     return obs
 
 
